@@ -26,7 +26,8 @@ META = {
     "rule": "obligations = (mutator, cached lookup) pairs whose facet sets meet (R1), "
     "graph-write sites (R2), cached-read/write orderings inside mutators (R3), "
     "stores into cached lookups (R4), decorator paths (R5), view getters (R6), "
-    "view call shapes (SIG); non-trivial = instantiated on a construct of /repo",
+    "view call shapes (SIG); non-trivial = instantiated on a construct of /repo"
+    "; H: every history of 2 (quick) / 4 (thorough) construction calls over a small universe, through the interpreted caches and invalidating wrappers, every lookup and every link view (whole, per node, subscript, len, membership) compared with the graph after each call; graph writes of private helpers count for their callers",
     "explanation": "Effect analysis over graph facets: every cached lookup's transitive "
     "facet read set is derived from its getter, every method's may-write set from the "
     "networkx mutators it calls; the rules pair writers and cached readers for all "
